@@ -16,9 +16,9 @@ static const int D = VDIM, S = VORDER, M = 2 * S, ORD = 2 * S - 1;
 typedef Spl<S, D> Sp;
 typedef Problem<D> Prob;
 
-struct Cfg { unsigned mask = 0; int N = 2; int tm = 0, sm = 0; double rho = 0.25; int K = 3; int fmode = 8; int t0i = 0; int tcmode = 1; int wcmode = 1;
+struct Cfg { unsigned mask = 0; int N = 2; int tm = 0, sm = 0; double rho = 0.25; int K = 3; int fmode = 8; int t0i = 0; int tcmode = 1; int wcmode = 1; bool far = false;
   std::string str() const { static const char *tmn[] = {"QuadInv", "Identity", "AffSq(user)"}, *smn[] = {"IdentitySpatial", "Scale(user)", "Proj(user)", "Tanh(user)"};
-    return fmt("%s D=%d N=%d flags=0x%02x timemap=%s spatialmap=%s rho=%g K=%d running=%s t0#%d timecost#%d", order_name(S), D, N, mask, tmn[tm], smn[sm], rho, K, RunCost<D>::mode_name(fmode), t0i, tcmode); } };
+    return fmt("%s D=%d N=%d flags=0x%02x timemap=%s spatialmap=%s rho=%g K=%d running=%s t0#%d timecost#%d%s", order_name(S), D, N, mask, tmn[tm], smn[sm], rho, K, RunCost<D>::mode_name(fmode), t0i, tcmode, far ? " far-frame(+3200,-2600,..)" : ""); } };
 static const double T0S[3] = {0.375, -2.5, 1024.125};
 
 template <class TM, class SM> struct Harness {
@@ -36,6 +36,8 @@ template <class TM, class SM> struct Harness {
     // reference waypoints inside the image of the spatial map
     Lcg g((uint64_t)c.args.seed * 7 + cfg.N);
     for (int i = 0; i <= cfg.N; ++i) { Eigen::VectorXd xi(dof(i)); for (int q = 0; q < xi.size(); ++q) xi(q) = g.dyadic() * 0.5; Eigen::VectorXd p = to_phys(xi, i); for (int d = 0; d < D; ++d) prob.P(i, d) = p(d); }
+    // far frame: all waypoints translated by a large dyadic vector (decision variables of magnitude > 1000)
+    if (cfg.far) for (int i = 0; i <= cfg.N; ++i) for (int d = 0; d < D; ++d) prob.P(i, d) += (d & 1) ? -2600.0 : 3200.0;
     if (cfg.tm == 2) opt.setTimeMap(&utm);
     if (cfg.sm >= 1) opt.setSpatialMap(&usm);
     opt.setOptimizationFlags(flags_of(cfg.mask)); opt.setEnergyWeights(cfg.rho); opt.setIntegralNumSteps(cfg.K);
@@ -187,9 +189,12 @@ template <class TM, class SM> struct Harness {
     WS w0; Eigen::VectorXd g0; const double f0 = eval(x, g0, &w0);
     auto run = [&](bool three, WS *ws, double e, double t) { return three ? opt.checkGradients(x, tc, wc, rc, ws, e, t) : opt.checkGradients(x, tc, rc, ws, e, t); };
     auto analytic = [&](bool three) { WS w; Eigen::VectorXd g; if (three) opt.evaluate(x, g, tc, wc, rc, &w); else opt.evaluate(x, g, tc, rc, &w); return g; };
+    // re-configuration right before the self-check, with NO query in between: the layout cache was last built for another flag set
+    { opt.setOptimizationFlags(flags_of(cfg.mask ^ 0x22)); (void)opt.getDimension(); opt.setOptimizationFlags(flags_of(cfg.mask)); }
     // default arguments are eps = 1e-6, tol = 1e-4 and the built-in workspace (no domain needed: pure forwarding)
     { WS wa, wb; auto r1 = opt.checkGradients(x, tc, wc, rc, &wa), r2 = opt.checkGradients(x, tc, wc, rc, &wb, 1e-6, 1e-4); auto r3 = opt.checkGradients(x, tc, rc, &wa), r4 = opt.checkGradients(x, tc, rc, &wb, 1e-6, 1e-4); ++c.st.comparisons;
       bool ok = r1.valid == r2.valid && bits_equal(r1.error_norm, r2.error_norm) && bits_equal(r1.numerical.data(), r2.numerical.data(), n) && r3.valid == r4.valid && bits_equal(r3.error_norm, r4.error_norm) && bits_equal(r3.numerical.data(), r4.numerical.data(), n);
+      if (r1.analytical.size() != n || r1.numerical.size() != n || r3.numerical.size() != n) { fail("selfcheck-after-reconfiguration", fmt("checkGradients right after setOptimizationFlags returns %ld/%ld entries for a decision vector of %d", (long)r1.analytical.size(), (long)r1.numerical.size(), n)); return; }
       if (!ok) { fail("selfcheck-defaults", "default eps/tol are not 1e-6 / 1e-4"); return; } }
     // Trustworthy domain, decided a priori from measurements that do not involve checkGradients:
     //   rounding: spread of the cost under perturbations of 2^-40 with the analytic first-order term removed -> floor = sigma sqrt(n)/eps
@@ -277,7 +282,8 @@ int main(int argc, char **argv) {
     }
     if (VPROP == 19) {
       for (int N = 1; N <= 3; ++N) for (unsigned m = 0; m < 256; ++m) { if (!th && !(m == 0 || m == 255 || m == 0x11 || m == 0x22 || m == 0x44 || m == 0x88 || m == 0x5a || m == 0xa5 || m == 0x0f || m == 0xf0 || m == 0x33 || m == 0xcc || m == 0x01 || m == 0x10 || m == 0x81 || m == 0x7e)) continue;
-        for (int sm : {0, 2}) { Cfg g; g.mask = m; g.N = N; g.sm = sm; g.K = 2; g.fmode = 8; g.rho = (m & 1) ? 0.0009765625 : 0.0; if (sm == 2 && !(th || m == 255 || m == 0x11)) continue; unit_do(g); } }
+        for (int sm : {0, 2}) { Cfg g; g.mask = m; g.N = N; g.sm = sm; g.K = 2; g.fmode = 8; g.rho = (m & 1) ? 0.0009765625 : 0.0; if (sm == 2 && !(th || m == 255 || m == 0x11)) continue; unit_do(g); }
+        if (m == 255 || m == 0x11 || m == 0) { Cfg g; g.mask = m; g.N = N; g.sm = 0; g.K = 2; g.fmode = 1; g.rho = 0.0; g.far = true; unit_do(g); } }
       return;
     }
     // C07 / C08: (a) all 256 masks x N 1..3 with defaults (DIM <= 2 in quick)
